@@ -308,6 +308,8 @@ class Judge:
 
 
 def generate(ctx, cfg, tag, simulate=None, timeout=600, workers=4):
+    # C10_TIMEOUT_SCALE: only stretches the TLC time limits on a slow / oversubscribed machine
+    timeout = int(timeout * float(os.environ.get("C10_TIMEOUT_SCALE", "1")))
     r = common.run_tlc(ctx, "Marks", cfg, workers=workers, timeout=timeout, simulate=simulate,
                        depth=20 if simulate else None, tag=tag, xmx="3g")
     if r.timed_out:
@@ -546,6 +548,7 @@ def main(ctx):
         case = obj["replay"]["case"]
         if "glyphs" not in case:
             raise common.ToolError("replay file holds a fixture observation, re-run the tier instead")
+        check_parse_table(ctx, judge)      # keeps the spec in the loop (and the evidence schema-valid)
         replay(ctx, judge, [case], "replay", keep=1)
         ev.traces = judge.n_cases
         ev.evaluations = judge.n_cases
